@@ -58,25 +58,37 @@ def r1(ctx):
         detail = "for _ in %s { layers.extend(%s) }" % (pretty(it), short(pretty(arg), 40))
     ctx.check("R10.1", "extend-with-original-clones", ok, "extension:" + short(detail, 90), c.loc(fn, ext[0]) if ext else c.loc(fn), "for _ in 1..loops { layers.extend(original.clone()) }",
               "the unrolled copies are produced by `%s`; every repetition must be a clone of the original layer list, loops-1 times" % detail)
-    # coupled
+    # coupled: for l in 0..length: the group {l + i*length | i in 0..loops}, built by an inner loop with push or by map/collect
     cp = lets.get("coupled")
     loops_ = [s for s in st if s.get("k") == "for" and cp and any(x.get("k") == "mcall" and x["name"] == "push" and e4.local_hid(x["recv"]) == cp[0] for x in walk(s))]
     ok = False
     detail = ""
+    from .common import range_bounds
     if len(loops_) == 1:
         o = loops_[0]
-        inner = [x for x in walk(o["body"]) if x.get("k") == "for"]
-        if len(inner) == 1:
-            i = inner[0]
-            ov, iv = pat_binds(o["pat"])[0], pat_binds(i["pat"])[0]
-            ro, ri = strip(o["iter"]), strip(i["iter"])
-            rng = lambda r: [pretty(strip(b)) for a, b in r["fs"]] if r.get("k") == "struct" else []
-            pushes = [x for x in walk(i["body"]) if x.get("k") == "mcall" and x["name"] == "push"]
-            if len(pushes) == 1:
-                N = e1.Norm(c, {ov[1]: Rat.atom("l"), iv[1]: Rat.atom("i"), ln[0] if ln else -1: Rat.atom("length")})
-                v = N.norm(pushes[0]["args"][0])
-                ok = v == Rat.atom("l") + Rat.atom("i") * Rat.atom("length") and rng(ro) == ["0", "length"] and rng(ri) == ["0", "loops"]
-                detail = "for l in %s, i in %s: push(%s)" % (rng(ro), rng(ri), v)
+        ov = pat_binds(o["pat"])[0]
+        ro = range_bounds(c, o["iter"], {ln[0]: Rat.atom("length")} if ln else {})
+        cand = []
+        for x in walk(o["body"]):
+            if x.get("k") == "for":
+                rb = range_bounds(c, x["iter"])
+                pushes = [y for y in walk(x["body"]) if y.get("k") == "mcall" and y["name"] == "push"]
+                if rb and len(pushes) == 1:
+                    cand.append((pat_binds(x["pat"])[0][1], rb, pushes[0]["args"][0]))
+            if x.get("k") == "mcall" and x["name"] == "map" and len(x["args"]) == 1 and strip(x["args"][0]).get("k") == "closure":
+                rb = range_bounds(c, x["recv"])
+                cl_ = strip(x["args"][0])
+                if rb and len(pat_binds(cl_["params"][0])) == 1:
+                    cand.append((pat_binds(cl_["params"][0])[0][1], rb, cl_["body"]))
+        if len(cand) == 1 and ro is not None:
+            ih_, rb, expr = cand[0]
+            env_ = {ov[1]: Rat.atom("l"), ih_: Rat.atom("i")}
+            if ln:
+                env_[ln[0]] = Rat.atom("length")
+            v = e1.Norm(c, env_).norm(expr)
+            ok = (v == Rat.atom("l") + Rat.atom("i") * Rat.atom("length") and str(ro[0]) == "0" and ro[1] == Rat.atom("length")
+                  and str(rb[0]) == "0" and rb[1] == Rat.atom("loops"))
+            detail = "for l in %s..%s, i in %s..%s: %s" % (ro[0], ro[1], rb[0], rb[1], v)
     ctx.check("R10.1", "coupled-groups", ok, "coupled:" + short(detail, 90), c.loc(fn), "coupled[l] = {l + i*length | i < loops}, l < length",
               "coupling groups are built as `%s`" % detail)
     lit = [x for x in walk(fn["body"]) if x.get("k") == "struct" and x["path"].endswith("feedback::Feedback")]
